@@ -188,24 +188,36 @@ fn random_ops(rng: &mut Rng) -> (PathBuilder, Vec<PathOp>) {
     let mut pb = PathBuilder::new();
     let mut want = Vec::new();
     let n = rng.int(0, 10);
+    // coordinates used so far: a later call may name one of them again exactly (a move_to to where the path is,
+    // a line back to the subpath's start before close(), a rect at the end of a line)
+    let used: std::cell::RefCell<Vec<f32>> = std::cell::RefCell::new(Vec::new());
+    let pair: std::cell::RefCell<Vec<(f32, f32)>> = std::cell::RefCell::new(Vec::new());
     let f = |rng: &mut Rng| -> f32 {
-        match rng.below(8) {
+        let v = match rng.below(8) {
             0 => 0.,
             1 => -0.0,
             2 => rng.range(-4000., 4000.) as f32,
             3 => f32::MIN_POSITIVE,
             _ => rng.range(-50., 50.) as f32,
-        }
+        };
+        used.borrow_mut().push(v);
+        v
+    };
+    // a point: fresh, or one of the points named before
+    let pt = |rng: &mut Rng| -> (f32, f32) {
+        let p = if !pair.borrow().is_empty() && rng.chance(0.3) { *rng.pick(&pair.borrow()[..]) } else { (f(rng), f(rng)) };
+        pair.borrow_mut().push(p);
+        p
     };
     for _ in 0..n {
         match rng.below(6) {
             0 => {
-                let (x, y) = (f(rng), f(rng));
+                let (x, y) = pt(rng);
                 pb.move_to(x, y);
                 want.push(PathOp::MoveTo(Point::new(x, y)));
             }
             1 => {
-                let (x, y) = (f(rng), f(rng));
+                let (x, y) = pt(rng);
                 pb.line_to(x, y);
                 want.push(PathOp::LineTo(Point::new(x, y)));
             }
@@ -224,7 +236,8 @@ fn random_ops(rng: &mut Rng) -> (PathBuilder, Vec<PathOp>) {
                 want.push(PathOp::Close);
             }
             _ => {
-                let (x, y, w, h) = (f(rng), f(rng), f(rng), f(rng));
+                let (x, y) = pt(rng);
+                let (w, h) = (f(rng), f(rng));
                 pb.rect(x, y, w, h);
                 want.push(PathOp::MoveTo(Point::new(x, y)));
                 want.push(PathOp::LineTo(Point::new(x + w, y)));
